@@ -54,6 +54,7 @@ def strategy_service():
   from harness import histories
   return st.fixed_dictionaries({
       'recycle': st.sampled_from([0, 86400]),
+      'context': st.sampled_from(['none', 'none', 'grpc']),
       'es': st.lists(st.booleans(), min_size=4, max_size=4),
       'ops': histories.history_strategy(min_ops=8, max_ops=40),
   })
@@ -71,12 +72,17 @@ def check_service(case):
   out = core.Out()
   tmp = svc.TmpFiles()
   servers = []
+  raws = []
   try:
     for b in svc.BACKENDS:
       plan = svc.Plan(es=['ok:%s' % v for v in case['es']] * 20)
-      servers.append((b, svc.make_servicer(
+      srv = svc.make_servicer(
           b, policy_factory=svc.HarnessPolicyFactory(plan), tmp=tmp,
-          recycle_s=case['recycle']), plan))
+          recycle_s=case['recycle'])
+      raws.append(srv)
+      if case.get('context') == 'grpc':
+        srv = histories.with_context(srv)
+      servers.append((b, srv, plan))
     owners = histories.OWNERS
     deleted = set()
     recreated = False
@@ -145,8 +151,10 @@ def check_service(case):
     if any(o[0] == 'early_stop' for o in case['ops']):
       out.cls('has_early_stop')
     out.cls('recycle_%s' % case['recycle'])
+    if case.get('context') == 'grpc':
+      out.cls('with_grpc_context')
   finally:
-    for _, s, _ in servers:
+    for s in raws:
       svc.close_servicer(s)
     tmp.close()
   return out
